@@ -218,6 +218,13 @@ func genRT(tier string) []proto.RTItem {
 			items = append(items, proto.RTItem{Scn: r, Class: fmt.Sprintf("request/tcp-%s/target-%s", m, c), Note: map[string]string{"may_fail": "1"}})
 		}
 	}
+	// a platform whose handle asks the run to close its port reservation (the Windows raw-socket handle; the SACK variant
+	// is not available there): whatever the request answers, every handle it opened is closed once
+	for _, pr := range []struct{ p, m, h string }{{"udp", "", "203.0.113.77"}, {"tcp", "syn", "203.0.113.77"}, {"tcp", "sack", "198.18.0.9"}, {"tcp", "prefer_sack", "198.18.0.9"}} {
+		r := proto.RTScn{Hostname: pr.h, Protocol: pr.p, Method: pr.m, MinTTL: 1, MaxTTL: 4, DelayMs: 10, TimeoutMs: 100, Queries: 1, E2e: 1, Dest: 3, UseListenerPort: pr.h == "198.18.0.9",
+			IPIDBase: 1000, EchoBase: 101, MustClosePort: true}
+		items = append(items, proto.RTItem{Scn: r, Class: fmt.Sprintf("request/%s-%s/handle-must-close-port", pr.p, pr.m), Note: map[string]string{"may_fail": "1"}})
+	}
 	// a request the variant cannot serve (TCP SYN to an IPv6 target): whatever it answers, every handle it opened is closed once
 	for _, m := range []string{"syn", "sack", "prefer_sack"} {
 		r := proto.RTScn{Hostname: "2001:db8::77", Protocol: "tcp", Method: m, MinTTL: 1, MaxTTL: 4, DelayMs: 10, TimeoutMs: 100, Queries: 1, E2e: 1, Dest: 3, IPIDBase: 1000, EchoBase: 101, WantV6: true}
